@@ -10,6 +10,10 @@ Implementation: `DefaultFormatter.number` directly (part a) and every text-produ
     grammar -?[0-9]+(.[0-9]+)? and |text - x| <= 1/2 10^-dp, or <= dp digits reading back to x exactly.
 (b) lines    - bytes at the writer vs the model's rendering of the statement the call is documented to
     assemble; oracle: an independent Python block-grammar lexer + the number oracle per word.
+(c) several objects alive - the same two comparisons and oracles with 13 formatters (one per precision) living side
+    by side, and with histories of commands interleaved over 2-4 builders of pairwise different settings that live
+    at the same time (one more created / one torn down in the middle now and then, values re-sent across builders):
+    every call is judged under the settings of its OWN builder.
 """
 from __future__ import annotations
 
@@ -121,12 +125,40 @@ def binade_sweep(rng, per_binade, dps):
         yield math.ldexp(1.0, e) if e >= -1074 else 0.0, rng.choice(list(dps))
 
 
-def run_numbers(R, cases, label, oracle_only=False):
+def impl_number_alive(order, cases):
+    """one formatter per precision, all created and configured up front (in the given order) and all alive while the
+    numbers are formatted, each by the formatter of its precision"""
+    from gscrib.formatters import DefaultFormatter
+
+    fmts = {}
+    for dp in order:
+        fmts[dp] = DefaultFormatter()
+        fmts[dp].set_decimal_places(dp)
+    out = []
+    for x, dp in cases:
+        try:
+            out.append("ok " + fmts[dp].number(x))
+        except Exception as e:  # noqa: BLE001 - the class is the observation
+            out.append(type(e).__name__)
+    return out
+
+
+def run_numbers(R, cases, label, oracle_only=False, alive=None):
+    """alive: a creation order of the precisions 0..12 - the numbers are then formatted by 13 formatters living side by
+    side, each configured once, instead of one formatter reconfigured before every number"""
     import numpy as np  # noqa: F401
     from gscrib.formatters import DefaultFormatter
 
-    fmt = DefaultFormatter()
-    impl = [impl_number(fmt, x, dp) for x, dp in cases]
+    if alive is not None:
+        impl = impl_number_alive(alive, cases)
+    else:
+        fmt = DefaultFormatter()
+        impl = [impl_number(fmt, x, dp) for x, dp in cases]
+
+    def case_of(x, dp):
+        c = number_case(x, dp)
+        return c if alive is None else {**c, "formatters_alive": list(alive)}
+
     idx = [i for i, (x, dp) in enumerate(cases) if F.scalar_kind(x) in ("f32", "f64", "int", "bool")]
     model = {}
     if not oracle_only:
@@ -138,7 +170,7 @@ def run_numbers(R, cases, label, oracle_only=False):
         region = "-"
         if finite and x != 0:
             region = "exact-range" if F.ulp_of(x) <= Fraction(1, 10 ** dp) else "shortest-digits-range"
-        R.case(number_case(x, dp), nontrivial=finite and x != 0)
+        R.case(case_of(x, dp), nontrivial=finite and x != 0)
         R.count(label, "num:" + kind, "num:" + region, f"num:dp={dp}",
                 "num:" + ("ok" if impl[i].startswith("ok ") else impl[i]))
         if i in model:
@@ -146,17 +178,17 @@ def run_numbers(R, cases, label, oracle_only=False):
             if mo.startswith("ok "):
                 with_short, exact_round = mo[3:].split(" ")
                 if impl[i] != "ok " + with_short:
-                    R.disagree("number", number_case(x, dp), impl[i], "ok " + with_short)
+                    R.disagree("number", case_of(x, dp), impl[i], "ok " + with_short)
                 if region == "exact-range" and with_short != exact_round:
                     # the theorem's spec (exact half-even rounding) must be the whole story inside the range
-                    R.disagree("number-spec-vs-shortest-digits", number_case(x, dp), with_short, exact_round)
+                    R.disagree("number-spec-vs-shortest-digits", case_of(x, dp), with_short, exact_round)
                 if region == "shortest-digits-range" and with_short != exact_round:
                     R.count("num:shortest-digits-branch-taken")
             elif impl[i] != mo:
-                R.disagree("number", number_case(x, dp), impl[i], mo)
+                R.disagree("number", case_of(x, dp), impl[i], mo)
         msg = number_oracle(x, dp, impl[i])
         if msg:
-            R.fail(number_case(x, dp), msg, tag="number")
+            R.fail(case_of(x, dp), msg, tag="number")
 
 
 # ------------------------------------------------------------------ (b) lines
@@ -251,12 +283,21 @@ TEXT_KINDS = ["move", "rapid", "move_absolute", "rapid_absolute", "set_axis", "a
               "comment", "annotate", "ehalt"]
 
 
-def gen_op(rng, dp, malformed, sym=";", adv=False):
+def gen_op(rng, dp, malformed, sym=";", adv=False, reuse=None):
     """(name, call spec, [stmts]) for one text-producing builder command (under comment symbols `sym`).
-    adv: a command that takes free text, given an adversarial text built for the style in force"""
+    adv: a command that takes free text, given an adversarial text built for the style in force
+    reuse: {role: [values]} shared by the calls of one history (several builders): a value already sent - to this
+    or to another builder - is sent again now and then"""
     from gscrib import enums as E
 
-    v = lambda role="coord": value(rng, dp, role)  # noqa: E731
+    def v(role="coord"):
+        if reuse is not None and reuse.get(role) and rng.random() < 0.35:
+            return rng.choice(reuse[role])
+        x = value(rng, dp, role)
+        if reuse is not None:
+            reuse.setdefault(role, []).append(x)
+        return x
+
     bad = lambda: bad_value(rng)  # noqa: E731
     opening, closing = F.style_of(sym)
 
@@ -546,6 +587,38 @@ def relaxed_equal(cfg, stmts, raw, model_raw, ws):
     return out == raw
 
 
+def compare_with_model(R, cfg, name, case, stmts, exc, raws, recs):
+    """correspondence of one call: (outcome, lines at the writer) against the model's records for its statements
+    (`case` may be a function that builds the case when it is needed)"""
+    dp, sym, le, labels = cfg
+    the_case = lambda: case() if callable(case) else case  # noqa: E731
+    if any(r == "ValueError" for r in recs):
+        mo = ("ValueError", [])
+    else:
+        mo = (None, [F.dec(r.split(" | ")[0][3:]) for r in recs])
+    if (exc, raws) != mo:
+        ok = False
+        if exc is None and mo[0] is None and len(raws) == len(mo[1]):
+            ws = F.expected_words(stmts, labels)
+            ok = all(a == b or relaxed_equal(cfg, stmts, a, b, w) for a, b, w in zip(raws, mo[1], ws))
+            if ok:
+                R.count("line:shortest-digits-word-accepted")
+        if not ok:
+            R.disagree("line:" + name, the_case(), [exc, raws], list(mo))
+    elif exc is None:
+        # the two lexers (Python oracle, Lean `lexLine`) must read the same bytes the same way
+        eol = F.LINE_ENDINGS[le]
+        opening, closing = F.style_of(sym)
+        for raw, rec in zip(raws, recs):
+            lean_lex = rec.split(" | ")[1][4:]
+            try:
+                py = F.show_lex(*F.lex_line(raw, opening, closing, eol))
+            except F.LexError:
+                py = "!"
+            if py != lean_lex:
+                R.disagree("lexer:python-vs-lean", the_case(), py, lean_lex)
+
+
 def run_lines(R, n, label, oracle_only=False, adv=False):
     """adv: only commands that take free text, under the bracketed comment styles, with adversarial texts"""
     cases = []
@@ -574,34 +647,257 @@ def run_lines(R, n, label, oracle_only=False, adv=False):
                 "line:labels:" + ("default" if labels == ("X", "Y", "Z") else "relabelled"),
                 *sorted({"line:text:" + f for st in stmts for f in F.text_features(st.get("c") or "", F.style_of(sym)[1])}))
         if not oracle_only:
-            recs = model[lo: lo + k]
-            if any(r == "ValueError" for r in recs):
-                mo = ("ValueError", [])
-            else:
-                mo = (None, [F.dec(r.split(" | ")[0][3:]) for r in recs])
-            if (exc, raws) != mo:
-                ok = False
-                if exc is None and mo[0] is None and len(raws) == len(mo[1]):
-                    ws = F.expected_words(stmts, labels)
-                    ok = all(a == b or relaxed_equal(cfg, stmts, a, b, w) for a, b, w in zip(raws, mo[1], ws))
-                    if ok:
-                        R.count("line:shortest-digits-word-accepted")
-                if not ok:
-                    R.disagree("line:" + name, case, [exc, raws], list(mo))
-            elif exc is None:
-                # the two lexers (Python oracle, Lean `lexLine`) must read the same bytes the same way
-                eol = F.LINE_ENDINGS[le]
-                opening, closing = F.style_of(sym)
-                for raw, rec in zip(raws, recs):
-                    lean_lex = rec.split(" | ")[1][4:]
-                    try:
-                        py = F.show_lex(*F.lex_line(raw, opening, closing, eol))
-                    except F.LexError:
-                        py = "!"
-                    if py != lean_lex:
-                        R.disagree("lexer:python-vs-lean", case, py, lean_lex)
+            compare_with_model(R, cfg, name, case, stmts, exc, raws, model[lo: lo + k])
         for tag, msg in line_oracle(cfg, stmts, exc, raws):
             R.fail(case, msg, tag=tag)
+
+
+# ------------------------------------------------------------------ (c) several objects alive at the same time
+#
+# The property is about *every* builder call under the settings configured on the builder that is called.  Parts (a)
+# and (b) only ever have one formatter / one builder alive.  Here 2-4 builders with pairwise different settings
+# (decimal places, comment symbols, line ending, axis labels) live side by side - created up front, now and then one
+# more created or one torn down in the middle - and their calls are interleaved; every call is judged against the
+# settings of its OWN builder (oracle) and against the model's rendering under those settings (correspondence).
+# Anything configured per object but kept per class / per module / in a default argument shows up here.
+
+
+def distinct_cfgs(rng, k):
+    """k formatter settings: decimal places pairwise different; comment style, line ending and labels pairwise
+    different as far as 40 draws manage"""
+    out = []
+    for _ in range(k):
+        best = None
+        for attempt in range(40):
+            c = gen_cfg(rng)
+            if any(c[0] == o[0] for o in out):
+                continue
+            clash = sum((F.style_of(c[1]) == F.style_of(o[1])) + (F.LINE_ENDINGS[c[2]] == F.LINE_ENDINGS[o[2]])
+                        + (c[3] == o[3]) for o in out)
+            if best is None or clash < best[0]:
+                best = (clash, c)
+            if clash == 0 or (attempt >= 12 and best is not None):
+                break
+        if best is None:  # every draw repeated a precision already taken
+            c = gen_cfg(rng)
+            best = (0, (rng.choice([d for d in range(MAXDP + 1) if all(d != o[0] for o in out)]),) + c[1:])
+        out.append(best[1])
+    return out
+
+
+HALTS = ("halt", "pause", "stop", "wait")
+
+
+def admissible(name, call, on):
+    """would a correct builder in interlock state `on` = {tool, coolant} take this call the way a fresh one does?
+    (the statements `gen_op` expects are those of a fresh builder in absolute distance mode)"""
+    if name == "set_distance_mode" and call["a"] and str(call["a"][0]) == "relative":
+        return False
+    if name in ("tool_on", "power_on"):
+        return not on["tool"]
+    if name == "coolant_on":
+        return not on["coolant"]
+    if name == "tool_change" or name in HALTS:
+        return not on["tool"] and not on["coolant"]
+    return True
+
+
+def track(name, on):
+    if name in ("tool_on", "power_on"):
+        on["tool"] = True
+    elif name in ("tool_off", "power_off"):
+        on["tool"] = False
+    elif name == "coolant_on":
+        on["coolant"] = True
+    elif name == "coolant_off":
+        on["coolant"] = False
+    elif name == "emergency_halt":
+        on["tool"] = on["coolant"] = False
+
+
+def gen_group(rng):
+    """(cfgs, events): events are {"ev": "new" | "call" | "drop", "b": builder index, ...}"""
+    k = rng.choice([2, 2, 3])
+    late = rng.random() < 0.3
+    cfgs = distinct_cfgs(rng, k + (1 if late else 0))
+    order = list(range(k))
+    rng.shuffle(order)  # creation order is independent of the order the settings were drawn in
+    events = [{"ev": "new", "b": b} for b in order]
+    alive, on, reuse = list(order), {b: {"tool": False, "coolant": False} for b in range(len(cfgs))}, {}
+    ncalls = rng.randint(2 * k, 4 * k)
+    late_at = rng.randrange(1, ncalls) if late else -1
+    drop_at = rng.randrange(2, ncalls + 1) if rng.random() < 0.25 else -1
+
+    def call(b):
+        dp, sym = cfgs[b][0], cfgs[b][1]
+        malformed = rng.random() < 0.08
+        for _ in range(30):
+            name, spec, stmts = gen_op(rng, dp, malformed, sym, reuse=reuse)
+            if admissible(name, spec, on[b]):
+                break
+        else:
+            name, spec, stmts = "comment", C("comment", "kept"), [{"kind": "text", "c": "kept"}]
+        if not has_bad(stmts):
+            track(name, on[b])
+        events.append({"ev": "call", "b": b, "name": name, "call": spec, "stmts": stmts})
+
+    for i in range(ncalls):
+        if i == late_at:
+            events.append({"ev": "new", "b": k})
+            alive.append(k)
+        if i == drop_at and len(alive) > 1:
+            b = rng.choice(alive)
+            alive.remove(b)
+            events.append({"ev": "drop", "b": b})
+        call(rng.choice(alive))
+    # every builder still alive speaks once more after the last one was created / configured
+    tail = list(alive)
+    rng.shuffle(tail)
+    for b in tail:
+        call(b)
+    return cfgs, events
+
+
+def play_group(cfgs, events, invoke=None):
+    """drive the real builders; per event None or (exc, lines at the builder's own writer, {other builder: lines})"""
+    invoke = invoke or (lambda g, ev: do_call(g, ev["call"]))
+    alive, out = {}, []
+
+    def text(bs):
+        return [b.decode("utf-8", "replace") for b in bs]
+
+    try:
+        for ev in events:
+            b = ev["b"]
+            if ev["ev"] == "new":
+                alive[b] = F.make_builder(*cfgs[b])
+                out.append(None)
+            elif ev["ev"] == "drop":
+                g, rec = alive.pop(b)
+                g.teardown()
+                del g
+                out.append(None)
+            else:
+                g, rec = alive[b]
+                marks = {i: len(r.raw) for i, (_, r) in alive.items()}
+                exc = None
+                try:
+                    with warnings.catch_warnings():
+                        warnings.simplefilter("ignore", RuntimeWarning)  # numpy on NaN/inf coordinates
+                        invoke(g, ev)
+                except Exception as e:  # noqa: BLE001
+                    exc = "ValueError" if isinstance(e, ValueError) else type(e).__name__
+                foreign = {i: text(r.raw[marks[i]:]) for i, (_, r) in alive.items() if i != b and len(r.raw) > marks[i]}
+                out.append((exc, text(rec.raw[marks[b]:]), foreign))
+    finally:
+        for g, _ in alive.values():
+            try:
+                g.teardown()
+            except Exception:  # noqa: BLE001
+                pass
+    return out
+
+
+def cfg_json(cfg):
+    return {"dp": cfg[0], "symbols": cfg[1], "line_endings": cfg[2], "labels": list(cfg[3])}
+
+
+def group_case(cfgs, events, upto):
+    """the history up to and including event `upto`, replayable"""
+    evs = []
+    for ev in events[: upto + 1]:
+        if ev["ev"] == "call":
+            lc = line_case(cfgs[ev["b"]], ev["name"], ev["stmts"], ev["call"])
+            evs.append({"ev": "call", "b": ev["b"], "name": ev["name"], "call_expr": lc["call_expr"], "stmts": lc["stmts"]})
+        else:
+            evs.append(dict(ev))
+    return {"builders": [cfg_json(c) for c in cfgs], "events": evs, "judged_event": upto,
+            "judged_builder": events[upto]["b"]}
+
+
+def run_groups(R, n, label, oracle_only=False):
+    groups = [gen_group(R.rng) for _ in range(n)]
+    lines, spans = [], {}
+    for gi, (cfgs, events) in enumerate(groups):
+        for ei, ev in enumerate(events):
+            if ev["ev"] != "call":
+                continue
+            dp, sym, le, labels = cfgs[ev["b"]]
+            cf = F.cfg_fields(dp, sym, F.LINE_ENDINGS[le], labels)
+            spans[gi, ei] = (len(lines), len(ev["stmts"]))
+            lines += [F.stmt_line(cf, st) for st in ev["stmts"]]
+    model = [] if oracle_only else core.run_model("format", lines)
+    for gi, (cfgs, events) in enumerate(groups):
+        obs = play_group(cfgs, events)
+        first_call = next(i for i, ev in enumerate(events) if ev["ev"] == "call")
+        R.count(label, f"alive:builders={len(cfgs)}",
+                *sorted({"alive:" + ev["ev"] + "-in-the-middle" for ev in events[first_call:] if ev["ev"] != "call"}))
+        created = set()
+        for ei, (ev, ob) in enumerate(zip(events, obs)):
+            if ev["ev"] == "new":
+                created.add(ev["b"])
+            if ev["ev"] != "call":
+                continue
+            b, name, stmts = ev["b"], ev["name"], ev["stmts"]
+            cfg = cfgs[b]
+            exc, raws, foreign = ob
+            others = [cfg_json(cfgs[i]) for i in sorted(created) if i != b]
+            small = {**line_case(cfg, name, stmts, ev["call"]), "alive_with": others}
+            bad = has_bad(stmts)
+            R.case(small, nontrivial=bool(raws) and not bad)
+            R.count("alive:call", "alive:line:" + name, "alive:outcome:" + (exc or "ok"), f"alive:dp={cfg[0]}")
+            full = lambda cfgs=cfgs, events=events, ei=ei: group_case(cfgs, events, ei)  # noqa: E731 - built on demand
+            if not oracle_only:
+                lo, k = spans[gi, ei]
+                compare_with_model(R, cfg, name, full, stmts, exc, raws, model[lo: lo + k])
+                if foreign:
+                    R.disagree("alive:output-at-another-builder", full(), foreign, {})
+            for tag, msg in line_oracle(cfg, stmts, exc, raws):
+                R.fail(full(), f"builder {b} {cfg_json(cfg)} (alive with {others}): {msg}", tag=tag)
+
+
+def replay_group(case):
+    import numpy as np
+
+    env = {"np": np, "nan": float("nan"), "inf": float("inf")}
+    cfgs = [(c["dp"], c["symbols"], c["line_endings"], tuple(c["labels"])) for c in case["builders"]]
+    events = []
+    for ev in case["events"]:
+        ev = dict(ev)
+        if ev["ev"] == "call":
+            stmts = []
+            for st in ev["stmts"]:
+                st = dict(st)
+                if st.get("params") is not None:
+                    st["params"] = [(k, eval(v, dict(env))) for k, v in st["params"]]  # noqa: S307 - our own reprs
+                stmts.append(st)
+            ev["stmts"] = stmts
+        events.append(ev)
+    obs = play_group(cfgs, events, invoke=lambda g, ev: eval(ev["call_expr"], {**env, "g": g}))  # noqa: S307
+    for i, c in enumerate(case["builders"]):
+        print(f"builder {i}:", c)
+    rc = 0
+    for ei, (ev, ob) in enumerate(zip(events, obs)):
+        if ev["ev"] != "call":
+            print(f"[{ei}] builder {ev['b']}: {'created' if ev['ev'] == 'new' else 'torn down'}")
+            continue
+        cfg = cfgs[ev["b"]]
+        exc, raws, foreign = ob
+        cf = F.cfg_fields(cfg[0], cfg[1], F.LINE_ENDINGS[cfg[2]], cfg[3])
+        recs = core.run_model("format", [F.stmt_line(cf, st) for st in ev["stmts"]])
+        mo = ("ValueError", []) if any(r == "ValueError" for r in recs) else \
+            (None, [F.dec(r.split(" | ")[0][3:]) for r in recs])
+        msgs = list(line_oracle(cfg, ev["stmts"], exc, raws))
+        same = not foreign and ((exc, raws) == mo or (exc is None and mo[0] is None and len(raws) == len(mo[1]) and all(
+            a == b or relaxed_equal(cfg, ev["stmts"], a, b, w)
+            for a, b, w in zip(raws, mo[1], F.expected_words(ev["stmts"], cfg[3])))))
+        print(f"[{ei}] builder {ev['b']}:", ev["call_expr"])
+        print("      impl   :", exc, raws, *(["at other builders:", foreign] if foreign else []))
+        if msgs or not same:
+            print("      model  :", mo[0], mo[1])
+            print("      oracle :", msgs or "ok", "| corresp:", "ok" if same else "DIFFERENT")
+            rc = 1
+    return rc
 
 
 # ------------------------------------------------------------------ entry points
@@ -623,7 +919,10 @@ def run(R: core.Run):
     R.rule = ("numbers: (scalar, dp) with scalar from every binade 2^-1074..2^50, subnormals, +-0, rounding ties "
               "(k+1/2)*10^-dp and both neighbours, dyadics, ints, np.float64/int64/float32, dp 0..12; non-trivial = "
               "finite and non-zero.  lines: (formatter settings, one text-producing builder command); non-trivial = "
-              "at least one line written.  Distinct by hash of the case.")
+              "at least one line written.  several alive: the same numbers through 13 formatters living side by side "
+              "(one per precision); histories of 4-16 such commands interleaved over 2-4 builders with pairwise different "
+              "settings that live at the same time, each call judged under its own builder's settings.  Distinct by hash "
+              "of the case.")
     R.assumptions = [
         "numpy's Dragon4 digit generation (unique=True) is a trusted parameter: the model receives the shortest "
         "decimal identifying the scalar (computed without numpy: CPython repr for binary64, direct search for "
@@ -662,15 +961,22 @@ def run(R: core.Run):
     sweep = list(binade_sweep(R.rng, 1, [R.rng.randint(0, MAXDP)])) if not R.thorough else \
         list(binade_sweep(R.rng, 3, range(0, MAXDP + 1)))
     run_numbers(R, sweep, "numbers:binade-sweep")
-    rnd = [gen_number(R.rng, np) for _ in range(R.n(60000, 2000000) - len(sweep))]
+    n_alive = R.n(6000, 200000)
+    rnd = [gen_number(R.rng, np) for _ in range(R.n(60000, 2000000) - len(sweep) - n_alive)]
     for i in range(0, len(rnd), 250000):
         run_numbers(R, rnd[i: i + 250000], "numbers:random")
+    # 13 formatters alive at once, one per precision, created in a random order
+    order = list(range(MAXDP + 1))
+    R.rng.shuffle(order)
+    run_numbers(R, [gen_number(R.rng, np) for _ in range(n_alive)], "numbers:several-formatters-alive", alive=order)
     if R.thorough:
         R.extra["binade_sweep"] = {"cases": len(sweep), "scope": "every binade 2^-1074..2^50 x every dp 0..12 x 3 mantissas",
                                    "exhaustive": False}
     # (b) lines
     run_lines(R, R.n(2500, 60000), "lines:random")
     run_lines(R, R.n(400, 8000), "lines:adversarial-comment-text", adv=True)
+    # (c) several builders alive, calls interleaved
+    run_groups(R, R.n(220, 6000), "lines:several-builders-alive")
 
     if R.broken:
         # failing-input search: fresh batches judged by the oracle alone
@@ -678,6 +984,11 @@ def run(R: core.Run):
         run_numbers(R, [gen_number(R.rng, np) for _ in range(R.n(30000, 200000))], "search:numbers", oracle_only=True)
         run_lines(R, R.n(3000, 30000), "search:lines", oracle_only=True)
         run_lines(R, R.n(600, 6000), "search:lines:adversarial-comment-text", oracle_only=True, adv=True)
+        order = list(range(MAXDP + 1))
+        R.rng.shuffle(order)
+        run_numbers(R, [gen_number(R.rng, np) for _ in range(R.n(6000, 60000))], "search:numbers:several-formatters-alive",
+                    oracle_only=True, alive=order)
+        run_groups(R, R.n(400, 4000), "search:lines:several-builders-alive", oracle_only=True)
     return {}, {}
 
 
@@ -687,6 +998,8 @@ def replay(data):
     print("replay of", data.get("kind"), "-", fl.get("name") or fl.get("tag"))
     print("case   :", fl.get("case"))
     case = fl.get("case") or {}
+    if isinstance(case, dict) and "builders" in case and "events" in case:
+        return replay_group(case)
     if isinstance(case, dict) and "hex" in case:
         import numpy as np
         from gscrib.formatters import DefaultFormatter
@@ -701,7 +1014,11 @@ def replay(data):
             x = int(eval(x, {"np": np, "True": True, "False": False}))  # noqa: S307 - our own repr
         else:
             x = None
-        io = impl_number(DefaultFormatter(), x, case["dp"])
+        if case.get("formatters_alive"):
+            print("alive  : one formatter per precision, created in the order", case["formatters_alive"])
+            io = impl_number_alive(case["formatters_alive"], [(x, case["dp"])])[0]
+        else:
+            io = impl_number(DefaultFormatter(), x, case["dp"])
         msg = number_oracle(x, case["dp"], io)
         print("impl   :", io)
         if k in ("f64", "f32", "int", "bool"):
